@@ -91,7 +91,16 @@ def run(case):
     runner = persist.RestartRun(case['program'], case.get('crashes'), case.get('media'), case.get('loader', 'default'))
     try:
         proc = runner.run()
-        if runner.load_error is not None:
+        if runner.runaway is not None:
+            result.events = list(runner.world.events)
+            result.nontrivial = True
+            result.violate('runaway', 'tick_limit', f'the process does not come to rest: {runner.runaway}')
+            return result
+        if runner.resume_error is not None:
+            result.nontrivial = True
+            result.violate('resume_failed', type(runner.resume_error).__name__,
+                           f'resume() of a process that waits after Wait(f) raised {runner.resume_error!r}')
+        elif runner.load_error is not None:
             result.nontrivial = True
             result.violate('restore_failed', type(runner.load_error).__name__,
                            f'a checkpoint taken before a step could not be loaded: {runner.load_error!r}')
